@@ -7,11 +7,23 @@ pub open spec fn body_missing_value(b: FunctionBody, brace: Location) -> bool {
 	&&& location == brace && b.return_value_identifier.location == brace
 	&&& b.statements@.len() > 0 && !(b.statements@[b.statements@.len() - 1] is Poison) && after == sloc(b.statements@[b.statements@.len() - 1])
 }
-// `return: value;` - the error points at the semicolon (a token of the file), `after` at the value
+// `return: value;` - the error points at a token of the file that IS a semicolon, `after` at the value
 pub open spec fn semicolon_after_value(t0: Tokens, e: Error) -> bool {
 	&&& e matches Error::UnexpectedSemicolonAfterReturnValue { location, after }
 	&&& forward(location) && location.span.end <= end_loc(t0).span.end
 	&&& forward(after) && after.span.end <= location.span.end
+	&&& exists|k: int| 0 <= k < t0.tokens@.len() && (#[trigger] t0.tokens@[k]).location == location
+		&& t0.tokens@[k].result is Ok && t0.tokens@[k].result->Ok_0 is Semicolon
+}
+// the same error seen from a cursor of which t1 is a suffix
+pub proof fn lemma_semicolon_suffix(t0: Tokens, t1: Tokens, e: Error)
+	requires stream_wf(t0), stream_wf(t1), took(t0, t1, 0), semicolon_after_value(t1, e),
+	ensures semicolon_after_value(t0, e),
+{
+	let location = e->UnexpectedSemicolonAfterReturnValue_location;
+	let k = choose|k: int| 0 <= k < t1.tokens@.len() && (#[trigger] t1.tokens@[k]).location == location
+		&& t1.tokens@[k].result is Ok && t1.tokens@[k].result->Ok_0 is Semicolon;
+	assert(t1.tokens@[k] == t0.tokens@[k + taken(t0, t1)]);
 }
 
 // ---- members and parameters `name [: type]` -------------------------------------------------------------------------------------
